@@ -7,6 +7,7 @@ const fn env_num(s: Option<&str>, d: u64) -> u64 {
         None => d,
     }
 }
+const _: () = assert!(M < SEQS, "the table model must range over every sequence the harness uses");
 fn bits(lo: u64, hi: u64) -> u32 {
     if lo > hi {
         0
@@ -36,7 +37,7 @@ fn c05_partial_answer_is_exactly_the_buffered_range() {
         kani::assume(sizes[i] <= usize::MAX / 16);
         i += 1;
     }
-    let conn = venv::sql::Conn::new(Db { actor: ActorId(3), version: 7, rows, sizes });
+    let conn = venv::sql::Conn::new(Db { actor: ActorId(3), version: 7, rows, sizes, have: 0, last_seq: 0, ts: 0, gaps: 0 });
     let sender: Sender<SyncMessage> = Sender::new(false);
     let res = answer_partial_from_buffer(&conn, &sender, ActorId(3), CrsqlDbVersion(7), CrsqlSeq(hs)..=CrsqlSeq(he), CrsqlSeq(rs)..=CrsqlSeq(re), CrsqlSeq(last), Timestamp(1));
     if res.is_ok() {
@@ -109,4 +110,92 @@ fn c05_need_filter_version_unknown_iff_needed_or_beyond_head() {
     let expect = (has_gap && gs <= v && v <= ge) || (head > 0 && v > head);
     assert!(unknown == expect, "C05: the server's 'cannot serve this version' predicate is not 'needed by us or beyond our head'");
     core::mem::forget(bv);
+}
+
+// ---------------------------------------------------------------------------------------------
+// Full need, a requested version without live rows in crsql_changes (the `unprocessed` loop of
+// handle_need): the server declares it EMPTY only if it neither lists it as needed (inside a gap)
+// nor holds buffered rows of it; a version it holds partially is answered range by range with
+// exactly the buffered rows of each bookkept range, and is never declared empty.
+// ---------------------------------------------------------------------------------------------
+#[kani::proof]
+fn c05_version_declared_empty_only_if_neither_needed_nor_buffered() {
+    let gaps: u32 = kani::any();
+    kani::assume(gaps & !bits(1, 8) == 0);
+    let version: u64 = kani::any();
+    kani::assume(version >= 1 && version <= 8);
+    // no buffered row at all (concretely: keeps the solver out of the answering path, which the
+    // next harness covers)
+    let conn = venv::sql::Conn::new(Db { actor: ActorId(3), version: 7, rows: 0, sizes: [0; 8], have: 0, last_seq: 0, ts: 0, gaps });
+    let sender: Sender<SyncMessage> = Sender::new(false);
+    let mut empties: RangeInclusiveSet<CrsqlDbVersion> = RangeInclusiveSet::new();
+    let res = answer_version_without_live_rows(&conn, &sender, ActorId(3), CrsqlDbVersion(version), &mut empties);
+    assert!(res.is_ok());
+    let needed = gaps & (1 << version) != 0;
+    assert!(sender.sent() == 0, "C05: something sent for a version without live or buffered rows");
+    if needed {
+        assert!(empties.is_empty(), "C05: a version the server lists as needed is declared empty");
+    } else {
+        assert!(empties.len() == 1 && empties.contains(&CrsqlDbVersion(version)) && !empties.contains(&CrsqlDbVersion(version + 1)) && (version == 1 || !empties.contains(&CrsqlDbVersion(version - 1))), "C05: a held version without live changes is not declared empty (exactly it)");
+    }
+    kani::cover!(needed, "needed version stays silent");
+    kani::cover!(!needed, "empty declared");
+    core::mem::forget((sender, empties));
+}
+
+#[kani::proof]
+fn c05_partially_buffered_version_is_answered_range_by_range_never_empty() {
+    let last: u64 = kani::any();
+    kani::assume(last <= M);
+    let have: u32 = kani::any();
+    kani::assume(have != 0 && have & !bits(0, last) == 0);
+    let rows: u32 = kani::any();
+    kani::assume(rows != 0 && rows & !have == 0 && rows.count_ones() <= MAX_ROWS_IN_RANGE);
+    let in_gap: bool = kani::any(); // whatever the gap table says once rows are buffered
+    let sizes: [usize; 8] = kani::any();
+    let mut i = 0;
+    while i <= M as usize {
+        kani::assume(sizes[i] <= usize::MAX / 16);
+        i += 1;
+    }
+    let conn = venv::sql::Conn::new(Db { actor: ActorId(3), version: 7, rows, sizes, have, last_seq: last, ts: 1, gaps: if in_gap { 1 << 7 } else { 0 } });
+    let sender: Sender<SyncMessage> = Sender::new(false);
+    let mut empties: RangeInclusiveSet<CrsqlDbVersion> = RangeInclusiveSet::new();
+    let res = answer_version_without_live_rows(&conn, &sender, ActorId(3), CrsqlDbVersion(7), &mut empties);
+    assert!(empties.is_empty(), "C05: a partially held version is declared empty");
+    if res.is_ok() {
+        let n = sender.sent();
+        let log = sender.log.borrow();
+        let mut covered = 0u32;
+        let mut carried = 0u32;
+        let mut k = 0;
+        while k < n {
+            match &log[k] {
+                Some(SyncMessage::V1(SyncMessageV1::Changeset(ChangeV1 { actor_id, changeset: Changeset::Full { version, changes, seqs, last_seq, .. } }))) => {
+                    assert!(actor_id.0 == 3 && version.0 == 7 && last_seq.0 == last);
+                    let (a, b) = (seqs.start().0, seqs.end().0);
+                    assert!(a <= b && b <= last);
+                    let m = bits(a, b);
+                    assert!(m & !have == 0, "C05: the server claims sequences it does not hold");
+                    assert!(m & covered == 0, "C05: a sequence range answered twice");
+                    covered |= m;
+                    for c in changes.iter() {
+                        assert!(c.seq.0 >= a && c.seq.0 <= b, "C05: change outside the range of the changeset carrying it");
+                        assert!(rows & (1 << c.seq.0) != 0 && carried & (1 << c.seq.0) == 0);
+                        carried |= 1 << c.seq.0;
+                    }
+                }
+                _ => {
+                    assert!(false, "C05: unexpected message")
+                }
+            }
+            k += 1;
+        }
+        // ranges that hold at least one row are answered completely; (a bookkept range spanning the
+        // whole version without a single row is the documented silent case)
+        assert!(carried == rows, "C05: the buffered rows were not sent exactly once");
+        assert!(covered & !have == 0);
+        kani::cover!(n >= 2, "two bookkept ranges answered");
+    }
+    core::mem::forget((sender, empties));
 }
